@@ -107,6 +107,40 @@ def check_data(ctx, e, domseq, variant=0):
         ctx.violation("Dataset differs from Contingency.tla: " + "; ".join(bad[:3]), info, {"kind": "dataset"})
 
 
+def big_domains(ctx):
+    """The product laws on domains whose size exceeds 2^63 (e.g. the full Adult domain, 1.2e19 cells): exact integers required."""
+    import math, random
+    rng = random.Random(ctx.seed)
+    adult = [("age", 100), ("workclass", 9), ("fnlwgt", 100), ("education", 16), ("education-num", 16), ("marital", 7), ("occupation", 15),
+             ("relationship", 6), ("race", 5), ("sex", 2), ("gain", 100), ("loss", 100), ("hours", 99), ("country", 42), ("income", 2)]
+    for trial in range(6):
+        items = list(adult)
+        rng.shuffle(items)
+        if trial >= 3:
+            items = [(a, n * rng.choice([1, 3])) for a, n in items]
+        names, sizes = [a for a, _ in items], [n for _, n in items]
+        info = {"attrs": names, "sizes": sizes}
+        ctx.case(("bigdom", tuple(names), tuple(sizes)), nontrivial=True)
+        bad = []
+        try:
+            d = Domain(names, sizes)
+            full = math.prod(sizes)
+            if int(d.size()) != full: bad.append("size() = %s, product of the sizes %d" % (d.size(), full))
+            half = names[::2]
+            pa, pb = math.prod(n for a, n in items if a in half), math.prod(n for a, n in items if a not in half)
+            if int(d.size(half)) != pa: bad.append("size(%s) = %s, product %d" % (half, d.size(half), pa))
+            if int(d.project(half).size()) * int(d.marginalize(half).size()) != full or int(d.project(half).size()) != pa or int(d.marginalize(half).size()) != pb:
+                bad.append("size(project) * size(marginalize) = %s * %s, size %d" % (d.project(half).size(), d.marginalize(half).size(), full))
+            mg = d.project(half).merge(d.marginalize(half))
+            if int(mg.size()) != full: bad.append("size(merge of the two halves) = %s, product %d" % (mg.size(), full))
+            if int(Domain.fromdict(dict(items)).size()) != full: bad.append("fromdict(...).size()")
+        except Exception as ex:
+            ctx.violation("Domain operation raised %r" % ex, info, {"kind": "crash"})
+            continue
+        if bad:
+            ctx.violation("Domain differs from DomainAlgebra.tla (product laws, sizes beyond 2^63): " + "; ".join(bad[:3]), info, {"kind": "domain"})
+
+
 def run(ctx, canary=False):
     thorough = ctx.tier == "thorough"
     ctx.rule = ("TLC enumerates every pair of domains over {a:2,b:3,c:1,d:2} (all attribute orders) x argument sequences and "
@@ -124,6 +158,7 @@ def run(ctx, canary=False):
         check_domain(ctx, e)
     if r.emits:
         ctx.sample({"domain case": r.emits[len(r.emits) // 2]})
+    big_domains(ctx)
     for domseq, maxrecs in ((["b", "a", "c"], 4 if thorough else 3), (["a", "d"], 4 if thorough else 3)):
         mc = "---- MODULE MC_Data2 ----\nEXTENDS Contingency\nMCSz == %s\nMCW == {<<2, 3, 5>>, <<1, 0, 4>>}\nMCDom == %s\n====\n" % (
             to_tla(SZ), to_tla(domseq))
